@@ -172,7 +172,7 @@ def _interpret_node(t: Node, variables: Set[Variable], model: Model):
             triple = (var, role, target)
             if model.is_role_inverted(role):
                 if target in variables:
-                    triple = model.invert(triple)
+                    triple = model.deinvert(triple)
                 else:
                     logger.warning('cannot deinvert attribute: %r', triple)
             triples.append(triple)
